@@ -105,6 +105,18 @@ def observe_io(graph, sd):
     rng = random.Random(sd)
     problems = []
     objs = R.build(graph, None)
+    # an identifier is asked for, then a parameter is changed (still unsealed): what is written afterwards is the new state
+    import copy as _copy
+
+    graph = _copy.deepcopy(graph)
+    cands = [n for n in graph if graph[n]["cls"] in ("K", "K2", "PX", "QX", "OD") and not graph[n].get("dflt") and graph[n]["vals"]["a"][0] == "int"]
+    if cands and rng.random() < 0.5:
+        n = rng.choice(cands)
+        for o in objs.values():
+            o.__xpm__.full_identifier
+        newa = 40 + rng.randrange(5)
+        objs[n].a = newa
+        graph[n]["vals"]["a"] = ["int", newa]
     node_of = {id(o): n for n, o in objs.items()}
     root = rng.choice(sorted(objs))
     ro = objs[root]
@@ -122,6 +134,12 @@ def observe_io(graph, sd):
     def check_loaded(newroot, how):
         mapping = {}
         matches(graph, root, newroot, mapping, problems, how)
+        # used as a parameter of a new configuration, what was loaded contributes what the original contributes
+        try:
+            if S.K2(a=77, c=newroot).__xpm__.raw_identifier.all != S.K2(a=77, c=ro).__xpm__.raw_identifier.all:
+                problems.append(f"{how}: identifier of a new holder of the reloaded node {root} differs from the identifier of a holder of the original")
+        except Exception as e:
+            problems.append(f"{how}: identifier of a holder of the reloaded configuration cannot be computed: {e!r}"[:200])
         for n, o in mapping.items():
             try:
                 o.__xpm__._raw_identifier = None
